@@ -115,9 +115,9 @@ impl CertificateInfo {
         let days_until_expiry = match not_after.duration_since(now) {
             Ok(duration) => (duration.as_secs() / 86400) as i64,
             Err(_) => {
-                // Certificate has expired
+                // Certificate has expired: always negative, also during the first day after notAfter
                 let duration = now.duration_since(not_after).unwrap();
-                -((duration.as_secs() / 86400) as i64)
+                -((duration.as_secs() / 86400) as i64) - 1
             }
         };
 
